@@ -115,9 +115,9 @@ func scriptLabels(sc mux.Script, r *mux.E1Result) []string {
 	return ls
 }
 
-func runE1(sc e1Scenario) *mux.E1Result {
+func runE1(sc e1Scenario, focus string) *mux.E1Result {
 	return mux.RunE1(sc.Script, mux.E1Opts{
-		ObserveEvery: sc.ObserveEvery, Query: sc.Query, ProbeUnknown: sc.Probe, TmpBase: os.Getenv("VERIF_TMP"), DecodeEvery: sc.DecodeEvery,
+		ObserveEvery: sc.ObserveEvery, Query: sc.Query, ProbeUnknown: sc.Probe, TmpBase: os.Getenv("VERIF_TMP"), DecodeEvery: sc.DecodeEvery, Focus: focus,
 	})
 }
 
@@ -129,7 +129,7 @@ func e1Prop(id, rule string, p mux.Profile, observeEvery int, probe, queries boo
 		Rule: rule,
 		Draw: drawE1(p, observeEvery, probe, queries),
 		Exec: func(sc e1Scenario) core.Outcome {
-			r := runE1(sc)
+			r := runE1(sc, id)
 			var o core.Outcome
 			o.Labels = scriptLabels(sc.Script, r)
 			if r.Skip != "" {
@@ -137,10 +137,8 @@ func e1Prop(id, rule string, p mux.Profile, observeEvery int, probe, queries boo
 				return o
 			}
 			o.NonTrivial = nontrivial(sc, r)
-			for _, v := range r.Violations {
-				if v.Prop != id {
-					o.Labels = append(o.Labels, "other-property-violated:"+v.Prop)
-				}
+			for p := range r.Foreign {
+				o.Labels = append(o.Labels, "other-property-violated:"+p)
 			}
 			if m := r.Has(id); m != "" {
 				o.Violation = m
@@ -151,8 +149,8 @@ func e1Prop(id, rule string, p mux.Profile, observeEvery int, probe, queries boo
 }
 
 var profContent = mux.Profile{Name: "content", Variants: allVariants, LeadUnits: [2]int{20, 160}, MaxAudio: 3, ParamRate: 6, AllowDisk: true}
-var profBoundary = mux.Profile{Name: "boundaries", Variants: allVariants, LeadUnits: [2]int{30, 220}, MaxAudio: 2, Boundary: true, ParamRate: 12, AllowDisk: false}
-var profDurations = mux.Profile{Name: "durations", Variants: allVariants, LeadUnits: [2]int{30, 200}, MaxAudio: 2, Durations: true, ParamRate: 3}
+var profBoundary = mux.Profile{Name: "boundaries", Variants: allVariants, LeadUnits: [2]int{30, 220}, MaxAudio: 2, Boundary: true, ParamRate: 12, AllowDisk: false, HalfSecond: true}
+var profDurations = mux.Profile{Name: "durations", Variants: allVariants, LeadUnits: [2]int{30, 200}, MaxAudio: 2, Durations: true, ParamRate: 3, HalfSecond: true}
 var profLong = mux.Profile{Name: "long", Variants: allVariants, LeadUnits: [2]int{200, 1500}, MaxAudio: 2, Long: true, ParamRate: 1, AllowDisk: true}
 var profTracks = mux.Profile{Name: "tracks", Variants: allVariants, LeadUnits: [2]int{20, 90}, MaxAudio: 4, ParamRate: 15}
 var profRetention = mux.Profile{Name: "retention", Variants: allVariants, LeadUnits: [2]int{150, 1200}, MaxAudio: 2, Long: true, SmallMax: true, ParamRate: 1, AllowDisk: true}
@@ -263,17 +261,15 @@ var propC19 = core.Prop[e1Scenario]{
 			o.Skip = true
 			return o
 		}
-		r := mux.RunE1(sc.Script, mux.E1Opts{ObserveEvery: sc.ObserveEvery, TmpBase: os.Getenv("VERIF_TMP"), Regularity: true, SampleTicks: ticks, NoDecode: true})
+		r := mux.RunE1(sc.Script, mux.E1Opts{ObserveEvery: sc.ObserveEvery, TmpBase: os.Getenv("VERIF_TMP"), Regularity: true, SampleTicks: ticks, NoDecode: true, Focus: "C19"})
 		o.Labels = scriptLabels(sc.Script, r)
 		if r.Skip != "" {
 			o.Skip = true
 			return o
 		}
 		o.NonTrivial = r.NonFinalParts >= 3
-		for _, v := range r.Violations {
-			if v.Prop != "C19" {
-				o.Labels = append(o.Labels, "other-property-violated:"+v.Prop)
-			}
+		for p := range r.Foreign {
+			o.Labels = append(o.Labels, "other-property-violated:"+p)
 		}
 		if m := r.Has("C19"); m != "" {
 			o.Violation = m
